@@ -212,6 +212,31 @@ class FalsyRec(Rec):
         return ()
 
 
+class KilledAtBirth(Rec):
+    def on_init(self, **kw):
+        super().on_init(**kw)
+        self.kill()
+
+
+def check_kill_in_on_init(tname, root, res):
+    """kill() before the iteration starts - here from on_init - : nothing is yielded until reset()."""
+    res.n['evaluations'] += 1
+    res.n['distinct_nontrivial'] += 1
+    w = KilledAtBirth(root, '*.txt', None, flags=WM.RECURSIVE)
+    aborted = w.is_aborted()
+    r1 = w.match()
+    r2 = list(w.imatch())
+    w.reset()
+    r3 = w.match()
+    want = clean_run(root, False)[1]
+    ok = aborted and r1 == [] and r2 == [] and r3 == want
+    res.outcomes.add('born-killed-ok' if ok else 'born-killed-runs')
+    if not ok:
+        res.add_violation(ID, run.viol('kill-before-start-ignored', {'tree': tname, 'where': 'on_init'},
+                                       {'is_aborted': True, 'while_aborted': [], 'after_reset': want},
+                                       {'is_aborted': aborted, 'match': r1, 'imatch': r2, 'after_reset': r3}))
+
+
 def check_falsy_values(tname, root, res):
     """Values returned by the hooks are passed through unchanged - also 0, '' and () (only None means "no value")."""
     res.n['evaluations'] += 1
@@ -530,6 +555,7 @@ def run_chunk(chunk):
             check_abort_points(tname, root, res)
             check_consumer_kill(tname, root, res)
             check_falsy_values(tname, root, res)
+            check_kill_in_on_init(tname, root, res)
             res.samples.append({'tree': tname, 'abort': 'kill() from hook invocation k, all k'})
         elif kind == 'seq':
             check_sequences(tname, root, chunk[2], res, [chunk[3]])
@@ -566,6 +592,9 @@ def replay(v):
             nb = out.get('results_before', 0)
             bad = ys != Y0[:len(ys)] or len(ys) - nb > 1
             return {'violates': bad, 'observed': {'results': ys}}
+        if k == 'kill-before-start-ignored':
+            check_kill_in_on_init(inp['tree'], root, r)
+            return {'violates': bool(r.viol), 'observed': r.viol[0]['observed'] if r.viol else 'ok'}
         if k == 'hook-value-dropped':
             check_falsy_values(inp['tree'], root, r)
             return {'violates': bool(r.viol), 'observed': r.viol[0]['observed'] if r.viol else 'ok'}
